@@ -202,8 +202,24 @@ def s_sigparam_clash(rng, nval):
     return _mk(prog, "signal_parameter_named_like_caller_int", rng, nval, edges={"a": list(range(-5, 15))})
 
 
+def s_param_shadowed_by_iterator(rng, nval):
+    """A loop INSIDE a function whose iterator has the name of one of the function's parameters."""
+    types = gen.Types(rng)
+    prog = [["input", "a", types.fresh(), rng.randint(-3, 12)]]
+    ptype = rng.choice(["Signal", "int"])
+    t = types.fresh()
+    body = [["sig", "before", ["p", ["b", "+", ["v", "s"], ["v", "i"]], t]],
+            ["for", "i", ["range", rng.randint(0, 1), rng.randint(2, 4), None],
+             [["place", "lamp", "small-lamp", ["b", "*", ["v", "i"], ["n", 2]], ["n", 20], None],
+              ["set", "lamp", "enable", ["c", ">", ["v", "s"], ["b", "*", ["v", "i"], ["n", 3]]]]]]]
+    prog.append(["func", "f", [["Signal", "s"], [ptype, "i"]], body, ["p", ["b", "+", ["v", "before"], ["v", "i"]], types.fresh()]])
+    arg = ["n", rng.randint(20, 30)] if ptype == "int" or rng.random() < 0.5 else ["v", "a"]
+    prog.append(["sig", "r0", ["call", "f", [["v", "a"], arg]]])
+    return _mk(prog, "parameter_shadowed_by_loop_iterator", rng, nval, edges={"a": list(range(-5, 15))})
+
+
 STRATA = [(s_scalar, 4), (s_untyped_result, 2), (s_shadow, 3), (s_entity_param, 2), (s_entity_return, 2),
-          (s_local_memory, 2), (s_nested, 3), (s_in_loop, 2), (s_int_clash, 3), (s_iter_clash, 2), (s_sigparam_clash, 2)]
+          (s_local_memory, 2), (s_nested, 3), (s_in_loop, 2), (s_int_clash, 3), (s_iter_clash, 2), (s_sigparam_clash, 2), (s_param_shadowed_by_iterator, 2)]
 
 
 def gen_cases(tier, seed):
